@@ -63,6 +63,10 @@ class MustFlow:
         """State on entering the `branch` (True/False) side of `test`."""
         return state | {('cond', branch, ntext(test))}
 
+    def after_loop(self, loop, state):
+        """State after a for/while statement (hook: e.g. 'every item has been validated')."""
+        return state
+
     def bind_loop(self, target, iter_node, state):
         """State at the top of a for-body after binding `target`."""
         return state
@@ -165,6 +169,8 @@ class MustFlow:
         els = self.walk(st.orelse, exit_state) if st.orelse else Outcome(exit_state)
         result.absorb(els)
         result.normal = join(els.normal, *[s for s, _ in body.breaks])
+        if result.normal is not None:
+            result.normal = self.after_loop(st, result.normal)
         return result
 
     def _try(self, st, state):
